@@ -287,8 +287,9 @@ def main(argv=None):
         "wall_s": round(wall, 2), "violations": len(res.violations),
     }
     os.makedirs(os.path.join(ROOT, "evidence"), exist_ok=True)
-    with open(os.path.join(ROOT, "evidence", a.prop + ".json"), "w") as fh:
-        json.dump(ev, fh, indent=1, default=str)
+    if not os.environ.get('VERIF_NO_EVIDENCE'):     # runs against a seeded change must not overwrite the evidence
+        with open(os.path.join(ROOT, "evidence", a.prop + ".json"), "w") as fh:
+            json.dump(ev, fh, indent=1, default=str)
 
     for k in res.known:
         print("KNOWN-FINDING: property=%s %s" % (a.prop, k))
